@@ -34,7 +34,10 @@ RULE = (
     'refused missions; tables, load factor and starting mass varying between the calls) flown in sequence on ONE '
     'builder instance created inside the case, every returned trajectory judged by the same monitor; (QI) every '
     'ordered pair of DIFFERENT missions that share airport codes, label, aircraft type and flight id (positions '
-    'given on the mission) on the same and on a new builder, each judged against its own mission. '
+    'given on the mission) on the same and on a new builder, each judged against its own mission; in every '
+    'sequence all returned trajectories are held and must be unchanged after each later flight; (QH) hold pairs x '
+    'step fractions around the 50-point growth block; (T) tables whose per-phase sub-tables cover different '
+    'flight-level ranges x elevations x iteration: a rejection or a finite trajectory obeying the rules. '
     'A case is non-trivial when a trajectory with >=3 points in every phase was returned and monitored, '
     'or when the mission was refused; distinct = distinct case'
 )
@@ -266,6 +269,10 @@ ATOMS = {
     'H': {'route': 'E1000', 'de': 42000},  # refused: arrival airport above the ceiling
 }  # fmt: skip
 SEQ_STEPS = [50, 50, 50]
+# step fractions for the hold sequences: 0.07 -> 14 points per phase, 43 in all (the whole trajectory fits in the
+# first 50-point block); 1/25 -> 76 (phases below, total above); 0.02 -> 50 per phase (exactly on the block);
+# 0.011 -> 90 per phase (above)
+HOLD_STEPS = [[7, 100], 25, 50, [11, 1000]]
 ATOMS_Q2 = {'quick': ['A', 'A-', 'B', 'B-', 'X'], 'thorough': ['A', 'A-', 'B', 'B-', 'C', 'C-', 'P', 'P-', 'X', 'H']}
 TABLE_PAIRS = {
     'quick': [['sample', 'sample'], ['sample', 'synth3'], ['synth3', 'sample']],
@@ -390,6 +397,22 @@ def sublattices(tier, seed):
         'axes': {'first mission': av, 'second mission': av, 'first call': LEG_VARIANTS, 'second call': LEG_VARIANTS},
         'cases': [_seq_case('QV', [_leg(x, **v1), _leg(y, **v2)]) for x in av for y in av for v1 in LEG_VARIANTS for v2 in LEG_VARIANTS],
     })  # fmt: skip
+    pt_tables = ['desc_hi', 'desc_lo', 'cruise_hi', 'climb_lo']
+    pt_elev = [None, 5355, 13123] if tier == 'quick' else [None, -1000, 5355, 13123, 35000]
+    pt_iter = ['off', [5, 1e-2]]
+    subs.append({
+        'name': 'T: tables whose climb/cruise/descent sub-tables cover different level ranges x elevations x iteration',
+        'axes': {'table': pt_tables, 'origin_elevation_ft': pt_elev, 'destination_elevation_ft': pt_elev, 'iterate': pt_iter,
+                 'route': [ELEV_ROUTE], 'steps (1/n per phase)': [[50, 50, 50]]},
+        'cases': [_case('T', table=t, oe=a, de=b, iter=it, steps=[50, 50, 50]) for t in pt_tables for a in pt_elev for b in pt_elev for it in pt_iter],
+    })  # fmt: skip
+    ah = ['A', 'A-', 'B']
+    subs.append({
+        'name': 'QH: pairs of missions, every returned trajectory HELD and re-examined after each later flight, '
+                'x step fractions (phases/trajectory below, at, above the 50-point growth block) x builder reused or new',
+        'axes': {'first mission': ah, 'second mission': ah, 'step fraction (all phases)': HOLD_STEPS, 'second call on': ['same builder', 'new builder']},
+        'cases': [dict(_seq_case('QH', [_leg(x), _leg(y)]), steps=[st, st, st], new_builder=nb) for x in ah for y in ah for st in HOLD_STEPS for nb in (False, True)],
+    })  # fmt: skip
     subs.append({
         'name': 'QI: two different missions sharing codes/label/aircraft type/flight id x builder reused or new',
         'axes': {'first mission': IDENT_AXIS[tier], 'second mission (a different one)': IDENT_AXIS[tier],
@@ -442,6 +465,19 @@ def _load_tables():
     ifl = [c.lower() for c in fp['cols']].index('fl')
     d['flight_performance'] = {'cols': fp['cols'], 'data': [r for r in fp['data'] if r[ifl] <= 300.0]}
     t['lowtab'] = PerformanceModel.from_data(d)
+    # per-phase sub-tables covering different flight-level ranges, so that a phase can leave its own sub-table
+    cols = [c.lower() for c in fp['cols']]
+    iroc = cols.index('rocd')
+
+    def cut(keep):
+        d2 = dict(base)
+        d2['flight_performance'] = {'cols': fp['cols'], 'data': [r for r in fp['data'] if keep(r[ifl], r[iroc])]}
+        return PerformanceModel.from_data(d2)
+
+    t['desc_hi'] = cut(lambda fl, roc: not (roc < -1e-6 and fl < 40.0))  # no descent rows below FL40
+    t['desc_lo'] = cut(lambda fl, roc: not (roc < -1e-6 and fl > 300.0))  # descent rows stop below the cruise level
+    t['cruise_hi'] = cut(lambda fl, roc: not (abs(roc) <= 1e-6 and fl < 200.0))  # cruise rows start at FL200
+    t['climb_lo'] = cut(lambda fl, roc: not (roc > 1e-6 and fl > 350.0))  # climb rows stop just above the cruise level
     for name, ceil in (('ceil30', 30000), ('ceil25', 25000)):  # ceiling below the top level of the (full) table
         d = dict(base)
         d['maximum_altitude_ft'] = ceil
@@ -449,7 +485,8 @@ def _load_tables():
     return t
 
 
-CEILING_FT = {'sample': 41000, 'legacy': 41000, 'synth3': 39000, 'lowtab': 41000, 'ceil30': 30000, 'ceil25': 25000}
+CEILING_FT = {'sample': 41000, 'legacy': 41000, 'synth3': 39000, 'lowtab': 41000, 'ceil30': 30000, 'ceil25': 25000,
+              'desc_hi': 41000, 'desc_lo': 41000, 'cruise_hi': 41000, 'climb_lo': 41000}
 
 # ------------------------------------------------------------------ driving the real code
 
@@ -638,10 +675,20 @@ def run_sequence(case):
     """Several missions on ONE builder created here; each returned trajectory goes to the monitor."""
     b = _new_builder(case)
     outcomes, vio, nontrivial = [], [], False
+    held = []  # (call number, leg, trajectory, digest taken when it was returned): the caller keeps its results
     for k, leg in enumerate(case['legs']):
         if k and case.get('new_builder'):
             b = _new_builder(case)  # state that outlives a builder object (module / class level) still matters
-        r = judge(leg, *fly(leg, builder=b))
+        kind, res = fly(leg, builder=b)
+        for hk, hleg, htraj, hdig in held:  # a later call must not change a trajectory returned earlier
+            now = _digest(htraj)
+            if now != hdig:
+                why = [v['kind'] + ': ' + v['detail'][:200] for v in judge(hleg, 'ok', htraj)['violations'][:2]]
+                vio.append(V('held-trajectory-changed', f'the trajectory returned by call {hk + 1} ({"->".join(case_codes(hleg))}) '
+                             f'changed while call {k + 1} ({"->".join(case_codes(leg))}) was made; it now violates: {why}'))  # fmt: skip
+        if kind == 'ok':
+            held.append((k, leg, res, _digest(res)))
+        r = judge(leg, kind, res)
         outcomes.append(r['outcome'])
         nontrivial = nontrivial or bool(r['nontrivial'])
         o, d = case_codes(leg)
@@ -651,6 +698,19 @@ def run_sequence(case):
                           f'{["->".join(case_codes(p)) for p in case["legs"][:k]]}): ' + v['detail']
             vio.append(v)
     return {'outcome': 'sequence:' + ' | '.join(outcomes), 'nontrivial': nontrivial, 'violations': vio}
+
+
+def _digest(traj):
+    import hashlib
+
+    h = hashlib.sha1()
+    try:
+        for f in mon.POINT_FIELDS:
+            h.update(np.ascontiguousarray(np.array(getattr(traj, f), dtype=float)).tobytes())
+        h.update(repr(_meta_key(read_meta(traj))).encode())
+    except Exception as e:  # noqa: BLE001
+        h.update(f'unreadable:{type(e).__name__}'.encode())
+    return h.hexdigest()
 
 
 def judge(case, kind, res):
